@@ -507,6 +507,11 @@ func (th *thread) runFrame(fr *frame) {
 		for _, instr := range instrs[np:] {
 			m.steps++
 			if m.steps > m.maxSteps {
+				if m.hangCheck {
+					m.hangCheck = false
+					m.maxSteps += 100000
+					m.violation("hang", fmt.Sprintf("no termination within the step budget in %s (stack: %s)", fr.fn, m.stack()))
+				}
 				panic(pathEnd{kind: endBoundExceeded, msg: fmt.Sprintf("step budget %d exceeded in %s", m.maxSteps, fr.fn)})
 			}
 			th.curInstr = instr
